@@ -141,9 +141,57 @@ def run_chain(desc):
                         if rets != exp:
                             violations.append({"mechanism": "chain-nonrtc-own-result", "rule": "C03.non-rtc-own-result",
                                                "detail": f"nested results {rets[:6]}.. expected {exp[:6]}..", "witness": {"source": src}})
+    fan_out(counters, violations, sigs, 700 if desc["tier"] == "quick" else 5000)
     cross_machine(counters, violations, sigs)
     return {"evaluations": counters["chains"], "signatures": sorted(sigs), "samples": [{"chain_source": CHAIN_SRC, "links": long_n}],
             "counters": counters, "violations": violations}
+
+
+FAN_SRC = '''
+class Fan_{k}(StateMachine):
+    s0 = State(initial=True)
+    burst = s0.to.itself({place}="spread")
+    tick = s0.to.itself(on="note")
+    {a}def spread(self, *args, **kwargs):
+        for i in range(WIDTH):
+            r = self.send("tick", i=i)
+            {aw}
+            if r is not None:
+                RETS.append(r)
+    {a}def note(self, i):
+        SEEN.append(i)
+        return i
+'''
+
+
+def fan_out(counters, violations, sigs, width):
+    """One callback queues `width` events at once: every one of them is processed, in sending order."""
+    import inspect
+
+    from statemachine import State, StateMachine
+
+    for engine in ("sync", "async"):
+        for place in ("before", "on", "after"):
+            seen, rets = [], []
+            src = FAN_SRC.format(k=f"{engine}_{place}", place=place, a="async " if engine == "async" else "",
+                                 aw="r = (await r) if inspect.isawaitable(r) else r" if engine == "async" else "pass")
+            ns = {"State": State, "StateMachine": StateMachine, "SEEN": seen, "RETS": rets, "WIDTH": width, "inspect": inspect,
+                  "__name__": "vmon_c03fan"}
+            exec(compile(src, "<c03fan>", "exec"), ns)
+            try:
+                sm = ns[f"Fan_{engine}_{place}"]()
+                sm.send("burst")
+            except Exception as err:  # noqa: BLE001
+                violations.append({"mechanism": f"fan-out-raised-{engine}", "rule": "C03.fifo", "detail": f"{type(err).__name__}: {err}"[:200],
+                                   "witness": {"source": src, "width": width}})
+                continue
+            counters["fan_out_events"] = counters.get("fan_out_events", 0) + len(seen)
+            sigs.add(F.h(("fan", engine, place)))
+            if seen != list(range(width)) or rets:
+                first_bad = next((i for i, (a_, b_) in enumerate(zip(seen, range(width))) if a_ != b_), len(seen))
+                violations.append({"mechanism": f"fan-out-lost-or-reordered-{engine}", "rule": "C03.fifo",
+                                   "detail": f"{width} events queued by one {place} callback: {len(seen)} processed, first deviation at position {first_bad}; nested results {rets[:3]}",
+                                   "witness": {"source": src, "width": width}})
 
 
 CROSS_SRC = '''
